@@ -95,12 +95,16 @@ type Machine struct {
 	// environment
 	nowCount  int
 	lastNow   *Term
+	slept       *Term  // time slept or declared to pass since the last clock reading
+	clockJitter uint64 // > 0: realistic clock model with this jitter bound (ns)
 	envSeq    int
 	crcCalls  int
 	sleeps    int
 	timeComps map[*Term]timeComp
 	timeWinLo, timeWinHi uint64
 	winChecked           map[*Term]bool
+	guards               map[interface{}]*guardInfo
+	guardOn              bool
 	hexModel  bool
 	rawCRC    bool
 	entry     func(g *G)
